@@ -18,7 +18,7 @@ pub struct C02;
 pub const ENUM_P: u64 = 352;
 pub const ENUM_E: u64 = 4 * 32;
 
-const WORLD_DIMS: &[&str] = &["rand", "stdout", "stderr", "merged", "stdin", "cwd_name", "spelling", "rust_backtrace", "stack", "env_bytes", "sig", "fds", "locale", "env_kind", "uid", "rlimit"];
+const WORLD_DIMS: &[&str] = &["rand", "stdout", "stderr", "merged", "stdin", "cwd_name", "spelling", "rust_backtrace", "stack", "env_bytes", "sig", "fds", "locale", "env_kind", "uid", "rlimit", "flock"];
 
 fn pick_program(ctx: &Ctx, rng: &mut Rng) -> programs::Picked {
     match rng.below(10) {
